@@ -322,27 +322,11 @@ def check_noise(case):
                 raise Violation('simulation %d: noise term / sqrt(variance %g) is not the standard-normal '
                                 'transform of any observed draw (closest max diff %.3g)' % (s, v1, best),
                                 'noise:variance')
-        else:
-            # eps = sqrt(v) z M  ->  channel covariance of a row is v M'M: must be v * cov
-            usable = [z for z in cands if n_obs >= case['n_channel'] + 2 and np.linalg.cond(z) < 1e3]
-            if not usable:
-                raise Reject('channel mixture not identifiable from these draws',
-                             'degenerate:ill-conditioned-draws')
-            fits = []
-            for z in usable:
-                mm = np.linalg.lstsq(z, unit, rcond=None)[0]
-                fits.append((core.maxdiff(z @ mm, unit), mm))
-            resid, mm = min(fits, key=lambda t: t[0])
-            require(resid <= 1e-7 * float(np.abs(unit).max()),
-                    'simulation %d: noise term is not a linear channel mixture of any observed draw '
-                    '(residual %.3g)' % (s, resid), 'noise:mixture')
-            got = mm.T @ mm
-            if not core.close(got, cov, 1e-6, 1e-6 * float(np.abs(cov).max())):
-                raise Violation('noise_cov_channel requested %s but the noise term has channel '
-                                'covariance %s (x variance)' % (
-                                    np.array2string(cov, precision=4).replace('\n', ''),
-                                    np.array2string(got, precision=4).replace('\n', '')),
-                                'noise:channel-covariance')
+        # with noise_cov_channel only additivity and sqrt(variance) scaling (above) are asserted:
+        # the property statement says nothing about the channel covariance of the noise term
+        # (the docstring does: numpy's lower Cholesky factor is applied from the right, which
+        # yields L'L instead of the requested LL' - recorded in DESIGN 6 as an observation,
+        # not asserted and not repaired)
     for s in range(1, len(eps_all)):
         require(core.maxdiff(eps_all[0], eps_all[s]) > 0,
                 'simulations 0 and %d have identical noise' % s, 'noise:fresh')
